@@ -113,7 +113,12 @@ MkSpec(nbv, pres, md) ==
 MkSpecO(nbv, pres, md, o) ==
   LET base == MkSpec(nbv, pres, md)
       has(n) == \E cell \in pres : \E m \in md[cell] : MName(m, cell[1], cell[2]) = n
-  IN [base EXCEPT !.pars = @ \o OverridePars(o, has)]
+      \* variant 2 also overrides the AUXILIARY DATA of one shapesys (cell (1,1)) and the FACTORS of another (cell (2,1)): the
+      \* two are equal by default (tau_b) and must not be confused once a measurement sets one of them
+      ssover == IF o # 2 THEN <<>>
+                ELSE (IF has(UName(1, 1)) THEN <<[NoCfg(UName(1, 1)) EXCEPT !.auxdata = [b \in 1..nbv[1] |-> R(70 + b)]]>> ELSE <<>>)
+                  \o (IF has(UName(2, 1)) THEN <<[NoCfg(UName(2, 1)) EXCEPT !.factors = [b \in 1..nbv[2] |-> R(30 + b)]]>> ELSE <<>>)
+  IN [base EXCEPT !.pars = @ \o OverridePars(o, has) \o ssover]
 
 -----------------------------------------------------------------------------
 (* settings: interpolation codes x clipping *)
